@@ -15,6 +15,7 @@ type Ctx struct {
 	keyPats           []keyPattern
 	readers           map[string][]readerInfo
 	narrow            map[*types.TypeName]string
+	initOnce          map[*ssa.Global]ssa.Value
 	transp            map[*ssa.Function]bool
 	narrowSrc         map[*types.TypeName]*types.Named
 	noReadCanon       int
